@@ -12,6 +12,6 @@ RC=$?
 rm -rf /var/tmp/mutant-evidence.$$
 echo "$OUT" | grep -E 'VIOLATION|HARNESS|OK property|failure|KNOWN' | head -5
 # drop the mutant's cache entry
-TH="$("$ROOT/build/treehash.sh" "$M")"; rm -rf "$ROOT/.cache/$TH"*
+TH="$("$ROOT/build/treehash.sh" "$M")"; CLEAN="$("$ROOT/build/treehash.sh" /repo)"; if [ -n "$TH" ] && [ "$TH" != "$CLEAN" ]; then rm -rf "$ROOT/.cache/$TH"-*; fi
 if [ $RC -eq 1 ] && echo "$OUT" | grep -q '^VIOLATION'; then echo "MUTANT CAUGHT: $(basename "$P") by $ID ($TIER)"; exit 0; fi
 echo "MUTANT MISSED: $(basename "$P") by $ID ($TIER) rc=$RC"; exit 1
